@@ -1162,6 +1162,67 @@ Proof.
               (if m_missing m then TIfaceSlice else TTuple (param_types m (length ws))) (WList ws)); reflexivity.
 Qed.
 
+(* ---- every decoder option reaches the decoder of the codec it was given to, and no other ------------------ *)
+
+(* the codecs consult the io decoder only at their OWN configured options: two io decoders that agree at
+   [c_dec co] (resp. [s_dec so]) cannot be told apart through the client (resp. service) codec *)
+Lemma read_headers_ext h1 h2 d m :
+  (forall s w, h1 d s w = h2 d s w) -> read_headers h1 d m = read_headers h2 d m.
+Proof.
+  intros H. unfold read_headers. destruct m as [|[t|w] [|[t'|hw] rest]]; try reflexivity.
+  destruct (Byte.eqb t t_H); [rewrite H|]; reflexivity.
+Qed.
+
+Lemma client_decode_body_ext io1 io2 zero co rts h tr rest :
+  (forall s t w, io1 (c_dec co) s t w = io2 (c_dec co) s t w) ->
+  client_decode_body io1 zero co rts h tr rest = client_decode_body io2 zero co rts h tr rest.
+Proof.
+  intros H. unfold client_decode_body.
+  destruct rest as [|[t|w] rest1]; try reflexivity.
+  destruct (Byte.eqb t t_R); [|reflexivity].
+  destruct rts as [|t0 [|t1 rts']]; [reflexivity| |].
+  - destruct rest1 as [|[t'|w] r]; try reflexivity. rewrite H. reflexivity.
+  - destruct rest1 as [|[t'|w] r]; try reflexivity.
+    destruct w; rewrite ?H; reflexivity.
+Qed.
+
+Theorem client_decode_uses_its_options io1 io2 h1 h2 zero co rts resp :
+  (forall s t w, io1 (c_dec co) s t w = io2 (c_dec co) s t w) ->
+  (forall s w, h1 (c_dec co) s w = h2 (c_dec co) s w) ->
+  client_decode io1 h1 zero co rts resp = client_decode io2 h2 zero co rts resp.
+Proof.
+  intros Hio Hh. unfold client_decode. destruct (parse_msg resp) as [m|]; [|reflexivity].
+  unfold client_decode_items. rewrite (read_headers_ext h1 h2 (c_dec co) m Hh).
+  destruct (read_headers h2 (c_dec co) m) as [[[hh|] rest] tr]; [|reflexivity].
+  apply client_decode_body_ext. exact Hio.
+Qed.
+
+Lemma service_decode_call_ext lower io1 io2 so svc h tr rest :
+  (forall s t w, io1 (s_dec so) s t w = io2 (s_dec so) s t w) ->
+  service_decode_call lower io1 so svc h tr rest = service_decode_call lower io2 so svc h tr rest.
+Proof.
+  intros H. unfold service_decode_call.
+  destruct rest as [|[t|w] rest1]; try reflexivity.
+  destruct (Byte.eqb t t_C); [|reflexivity].
+  destruct rest1 as [|[t'|nw] rest2]; try reflexivity.
+  destruct (dec_string nw) as [name|]; [|reflexivity].
+  destruct (lookup lower svc name) as [mt|]; [|reflexivity].
+  destruct rest2 as [|[t'|w] r]; try reflexivity.
+  destruct w; try reflexivity. rewrite H. reflexivity.
+Qed.
+
+Theorem service_decode_uses_its_options lower io1 io2 h1 h2 so svc req :
+  (forall s t w, io1 (s_dec so) s t w = io2 (s_dec so) s t w) ->
+  (forall s w, h1 (s_dec so) s w = h2 (s_dec so) s w) ->
+  service_decode lower io1 h1 so svc req = service_decode lower io2 h2 so svc req.
+Proof.
+  intros Hio Hh. unfold service_decode. destruct req as [|b req]; [reflexivity|].
+  destruct (parse_msg (b :: req)) as [m|]; [|reflexivity].
+  unfold service_decode_items. rewrite (read_headers_ext h1 h2 (s_dec so) m Hh).
+  destruct (read_headers h2 (s_dec so) m) as [[[hh|] rest] tr];
+    rewrite (service_decode_call_ext lower io1 io2 so svc _ tr rest Hio); reflexivity.
+Qed.
+
 (* ================================================================== D. the JSON-RPC envelope *)
 
 Section JsonRpcProofs.
